@@ -30,7 +30,7 @@ ASSUMPTIONS = [
     "depth_m = depth_ft x 0.3048 is compared within 4 ulp",
 ]
 REQUIRED = ["json_exports", "json_integer_header_values", "json_text_curves", "json_nan_header_values", "json_object_curves_with_nan", "csv_exports", "csv_records_checked",
-            "excel_exports", "excel_text_curves", "df_roundtrips", "depth_unit_cases", "depth_conflict_cases", "depth_unrecognised_cases"]
+            "excel_exports", "excel_text_curves", "df_roundtrips", "depth_unit_cases", "depth_conflict_cases", "depth_unrecognised_cases", "depth_cases_mnemonic_case_lower", "depth_cases_mnemonic_case_preserve"]
 SOFT_DEADLINE = {"quick": 100, "thorough": 1500}
 LEVEL_TEXT = "Exploration with independent readers of every export format as oracles over generated and corpus objects."
 LEVEL_NOTE = "Trusts json/csv/openpyxl/pandas as readers; export options outside the listed sets are not covered."
@@ -61,8 +61,9 @@ def grid(tier):
                     yield {"kind": "depth", "family": fam, "unit": u, "case": case_fn, "where": where}
     for u in ("KM", "IN", "CM", "S", "MS", "", "ftUS", "METROS", "FTS", "1IN", "mm"):
         yield {"kind": "depth", "family": None, "unit": u, "case": "asis", "where": "all"}
-    for u1, u2 in (("M", "FT"), ("FT", "M"), ("F", "METRES"), ("M", "0.1IN"), ("FEET", "0.1IN"), (".1IN", "M")):
-        yield {"kind": "depth", "family": "conflict", "unit": u1, "unit2": u2, "case": "asis", "where": "conflict"}
+    for u1, u2 in (("M", "FT"), ("FT", "M"), ("F", "METRES"), ("M", "0.1IN"), ("FEET", "0.1IN"), (".1IN", "M"), ("m", "ft"), ("Ft", "Metres"), ("METER", "F")):
+        for cs in ("asis", "lower", "upper"):
+            yield {"kind": "depth", "family": "conflict", "unit": u1, "unit2": u2, "case": cs, "where": "conflict"}
     import glob
     from rv import env
     for fn in sorted(glob.glob(os.path.join(env.REPO, "tests", "examples", "*.las")))[::3]:
@@ -442,12 +443,15 @@ def run_depth(case, ctx):
     wu = u if where in ("all", "well_only") else ""
     cu = u if where in ("all", "curve_only") else ""
     if where == "conflict":
-        wu, cu = case["unit"], case["unit2"]
+        f = {"upper": str.upper, "lower": str.lower, "title": str.title, "asis": str}[case["case"]]
+        wu, cu = f(case["unit"]), f(case["unit2"])
     text = ("~Version\nVERS. 2.0 : v\nWRAP. NO : w\n~Well\nSTRT.%s 1000.0 : s\nSTOP.%s 1001.0 : s\nSTEP.%s 0.5 : s\nNULL. -999.25 : n\n"
             "~Curves\nDEPT.%s : depth\nGR.GAPI : gamma\n~ASCII\n1000.0 50.5\n1000.5 51.5\n1001.0 52.5\n") % (wu, wu, wu, cu)
-    detail = {"unit": u, "where": where, "text": text}
+    mc = ["upper", "lower", "preserve"][(len(u) + len(where) + len(case["case"])) % 3]
+    ctx.count("depth_cases_mnemonic_case_" + mc)
+    detail = {"unit": u, "where": where, "text": text, "mnemonic_case": mc}
     try:
-        las = lasio.read(text)
+        las = lasio.read(text, mnemonic_case=mc)
     except Exception as e:
         V("depth-read-raised", "read raised %r" % (e,), detail)
         return
